@@ -6,7 +6,7 @@ from fractions import Fraction as F
 import trio
 import trio.testing
 
-from .. import corr
+from .. import corr, vclock
 from ..num import wire, unwire, canon
 from ..pools import RecPool
 
@@ -155,7 +155,7 @@ def impl(case):
                 obs.append(snap(fp, objs))
             nursery.cancel_scope.cancel()
 
-    trio.run(main, clock=trio.testing.MockClock(autojump_threshold=0))
+    vclock.run(main)
     return {"obs": obs, "trace": trace}
 
 
